@@ -1,6 +1,8 @@
 # unit `authz` (C02): authorization_rules.rs is_allowed / from_authorization_item, key.rs is_match, hyper_client query_pairs
-import os
+import os, sys
 from vxlib import Undecided
+sys.path.insert(0, os.path.join(os.path.dirname(os.path.dirname(os.path.abspath(__file__))), 'common'))
+import stubs
 HERE = os.path.dirname(os.path.abspath(__file__))
 COMMON = os.path.join(os.path.dirname(HERE), "common")
 
@@ -10,6 +12,35 @@ ASSUMPTIONS = [
     "ConnectionLogger::write only logs",
 ]
 FN_PROPS = {}
+
+
+def FAI(u, ar):
+    """ComputedAuthorizationItem::from_authorization_item (document -> tables)"""
+    it = ar.item("ComputedAuthorizationItem::from_authorization_item", "fn")
+    colls = [c for c in it["calls"] if c["kind"] == "method" and c["callee"] == "collect"]
+    if len(colls) != 3:
+        raise Undecided("from_authorization_item: expected three `.into_iter().map(..).collect()` chains, found %d" % len(colls))
+    e9 = []
+    for c, (ty, last) in zip(sorted(colls, key=lambda c: c["span"][0]), (("Role", "last_role"), ("Identity", "last_ident"), ("Privilege", "last_priv"))):
+        txt = ar.s(c["span"][0], c["span"][1])
+        m = __import__("re").match(r"(\w+)\s*\.into_iter\(\)", txt)
+        if not m:
+            raise Undecided("from_authorization_item: collect chain does not start with `<vec>.into_iter()`")
+        v = m.group(1)
+        e9.append(((c["span"][0], c["span"][1]), None, "%s: Vec<crate::key_keeper::key::%s>" % (v, ty), v,
+                   "std::collections::HashMap<String, crate::key_keeper::key::%s>" % ty, """
+    ensures forall|k: String| #[trigger] r@.contains_key(k) <==> %s(%s@, k) >= 0,
+            forall|k: String| r@.contains_key(k) ==> #[trigger] r@[k] == %s@[%s(%s@, k)],""" % (last, v, v, last, v),
+                   dict(name="vx_e9_index_by_name_" + ty.lower(), local=True)))
+    with u.impl_(ar, "ComputedAuthorizationItem"):
+        u.take_fn(ar, "ComputedAuthorizationItem::from_authorization_item", e9=e9, extra_attrs="#[verifier::loop_isolation(false)]",
+                  desugar_for={0: "vx_ra", 1: "vx_pn", 2: "vx_id"},
+                  pre_body="broadcast use vstd::std_specs::hash::group_hash_axioms;\nbroadcast use axiom_str_ext, axiom_deref_key_updated, axiom_string_ext;\nproof { lits_modes(); }\nlet ghost d0 = authorization_item;",
+                  contract="""
+        requires obeys_key_model::<String>(),
+        ensures repr(authorization_item, r),  // @C02.from_authorization_item.tables_represent_the_document
+                r.wf(),
+""")
 
 
 def build(u):
@@ -24,7 +55,9 @@ def build(u):
         u.raw(open(os.path.join(COMMON, f)).read())
     u.raw("use vstd::std_specs::hash::*;")
     u.raw(open(os.path.join(COMMON, "hash_iter.rs")).read())
+    u.raw(open(os.path.join(COMMON, "hash_str.rs")).read())
     u.raw_file("spec.rs")
+    u.raw_file("fai_spec.rs")
     u.raw_file("deps.rs")
     with u.mod("proxy", uses="use std::{ffi::OsString, path::PathBuf};"):
         u.take(px, "Claims", "struct", keep_derive=("Clone",))
@@ -32,9 +65,18 @@ def build(u):
             u.take(pc, "ConnectionLogger", "struct")
             with u.impl_(pc, "ConnectionLogger"):
                 u.take_fn(pc, "ConnectionLogger::write", external_body=True)
-        with u.mod("authorization_rules", uses="use super::{proxy_connection::ConnectionLogger, Claims};\nuse crate::key_keeper::key::{Identity, Privilege};\nuse std::collections::{HashMap, HashSet};\nuse log::Level as LoggerLevel;\nuse vstd::std_specs::hash::*;"):
+        with u.mod("authorization_rules", uses="use super::{proxy_connection::ConnectionLogger, Claims};\nuse crate::key_keeper::key::{Identity, Privilege};\nuse std::collections::{HashMap, HashSet};\nuse log::Level as LoggerLevel;\nuse vstd::std_specs::hash::*;\nuse crate::key_keeper::key::{AuthorizationItem, Role};\nuse crate::common::logger;\nuse std::str::FromStr;"):
             u.take(ar, "AuthorizationMode", "enum", structural=True)
+            with u.impl_(ar, "<AuthorizationMode as std::str::FromStr>"):
+                u.take(ar, "<AuthorizationMode as std::str::FromStr>::Err", "impl_type", make_pub=False)
+                u.take_fn(ar, "<AuthorizationMode as std::str::FromStr>::from_str", make_pub=False,
+                          pre_body="broadcast use axiom_str_ext;\nproof { lits_modes(); }",
+                          contract="""
+        ensures (r matches Ok(m) ==> m == mode_of(s@) && (m == AuthorizationMode::Disabled ==> lower(s@) == "disabled"@)),
+                (r is Err ==> mode_of(s@) == AuthorizationMode::Disabled),   // @C02.AuthorizationMode_from_str.three_modes_case_insensitive
+""")
             u.take(ar, "ComputedAuthorizationItem", "struct")
+            FAI(u, ar)
             with u.impl_(ar, "ComputedAuthorizationItem"):
                 u.take_fn(ar, "ComputedAuthorizationItem::is_allowed",
                     extra_attrs="#[verifier::loop_isolation(false)]",
@@ -103,6 +145,7 @@ let ghost mut done: Set<String> = Set::empty();
                     loop_ends={0: "proof { done = done.insert(privilege.name); }"},
                 )
     with u.mod("common"):
+        stubs.agent_logger_mod(u)
         with u.mod("hyper_client", uses="use http::Uri;"):
             u.take_fn(hc, "query_pairs",
                 extra_attrs="#[verifier::loop_isolation(false)]",
